@@ -40,7 +40,7 @@ func (c17) Batches(tier string, seed uint64) []core.Batch {
 func (c17) Mandatory(tier string) []string {
 	return []string{"full:entries>=2", "full:no-final-newline", "full:leading-blank-lines", "full:multi-distribution", "full:multi-option", "full:zone-half-hour", "full:zone-negative",
 		"prefix:between-entries", "prefix:in-header", "prefix:in-body", "prefix:in-trailer", "prefix:missing-only-final-newline", "prefix:empty", "outcome:error", "outcome:entries",
-		"malformed:version", "malformed:no-date", "malformed:month", "malformed:column0-body", "malformed:no-trailer", "malformed:indented-header", "full:line>=4096-bytes", "path:Parse", "path:ParseOne"}
+		"malformed:version", "malformed:no-date", "malformed:month", "malformed:column0-body", "malformed:no-trailer", "malformed:indented-header", "full:line>=4096-bytes", "path:Parse", "path:ParseOne", "path:ParseOne-16-byte-reader", "full:entry-without-options"}
 }
 
 type clEntry struct {
@@ -65,6 +65,9 @@ func (e clEntry) header() string {
 	var o []string
 	for _, kv := range e.Opts {
 		o = append(o, kv[0]+"="+kv[1])
+	}
+	if len(o) == 0 { // no options at all (the semicolon stays)
+		return fmt.Sprintf("%s (%s) %s;\n", e.Source, e.Version, strings.Join(e.Dists, " "))
 	}
 	return fmt.Sprintf("%s (%s) %s; %s\n", e.Source, e.Version, strings.Join(e.Dists, " "), strings.Join(o, ", "))
 }
@@ -113,9 +116,11 @@ func genChangelog(r *core.Rand, maxEntries int) clDoc {
 		for k := r.Range(1, 3); k > 0; k-- {
 			e.Dists = append(e.Dists, r.Pick([]string{"unstable", "experimental", "stable-security", "bookworm-backports", "UNRELEASED"}))
 		}
-		e.Opts = append(e.Opts, [2]string{"urgency", r.Pick([]string{"low", "medium", "high", "critical"})})
-		for k := r.Range(0, 2); k > 0; k-- {
-			e.Opts = append(e.Opts, [2]string{r.Pick([]string{"binary-only", "x-key", "team"}) + fmt.Sprint(k), r.Pick([]string{"yes", "no", "a-b"})})
+		if !r.Chance(1, 8) || i == 0 {
+			e.Opts = append(e.Opts, [2]string{"urgency", r.Pick([]string{"low", "medium", "high", "critical"})})
+			for k := r.Range(0, 2); k > 0; k-- {
+				e.Opts = append(e.Opts, [2]string{r.Pick([]string{"binary-only", "x-key", "team"}) + fmt.Sprint(k), r.Pick([]string{"yes", "no", "a-b"})})
+			}
 		}
 		var body strings.Builder
 		body.WriteString(strings.Repeat("\n", r.Range(1, 2)))
@@ -164,6 +169,15 @@ func diffEntry(g changelog.ChangelogEntry, w clEntry) string {
 	if !eqLines(strings.Fields(g.Target), w.Dists) {
 		return fmt.Sprintf("Target %q, want %q", g.Target, w.Dists)
 	}
+	if len(w.Opts) == 0 {
+		// no options written: no option may be reported (an entry for the empty key is tolerated)
+		for k, v := range g.Arguments {
+			if k != "" || v != "" {
+				return fmt.Sprintf("Arguments %v for a header without options", g.Arguments)
+			}
+		}
+		return diffEntryRest(g, w)
+	}
 	if len(g.Arguments) != len(w.Opts) {
 		return fmt.Sprintf("Arguments %v, want %v", g.Arguments, w.Opts)
 	}
@@ -172,6 +186,10 @@ func diffEntry(g changelog.ChangelogEntry, w clEntry) string {
 			return fmt.Sprintf("Arguments %v, want %v", g.Arguments, w.Opts)
 		}
 	}
+	return diffEntryRest(g, w)
+}
+
+func diffEntryRest(g changelog.ChangelogEntry, w clEntry) string {
 	if g.Changelog != w.Body {
 		return fmt.Sprintf("change text %q, want %q", g.Changelog, w.Body)
 	}
@@ -191,7 +209,12 @@ func diffEntry(g changelog.ChangelogEntry, w clEntry) string {
 }
 
 func parseOneLoop(text string) ([]changelog.ChangelogEntry, error) {
-	rd := bufio.NewReader(strings.NewReader(text))
+	return parseOneLoopSized(text, 4096)
+}
+
+// parseOneLoopSized: the caller owns the bufio.Reader and may have made it small.
+func parseOneLoopSized(text string, size int) ([]changelog.ChangelogEntry, error) {
+	rd := bufio.NewReaderSize(strings.NewReader(text), size)
 	var out []changelog.ChangelogEntry
 	for i := 0; i <= len(text)+1; i++ {
 		e, err := changelog.ParseOne(rd)
@@ -208,15 +231,22 @@ func parseOneLoop(text string) ([]changelog.ChangelogEntry, error) {
 
 func (p c17) full(c *core.C, d clDoc) {
 	text, _, _ := d.render()
-	for _, path := range []string{"Parse", "ParseOne"} {
+	for _, path := range []string{"Parse", "ParseOne", "ParseOne-16-byte-reader", "ParseOne-200-byte-reader", "ParseOne-64KiB-reader"} {
 		var got []changelog.ChangelogEntry
 		var err error
-		if path == "Parse" {
+		switch path {
+		case "Parse":
 			var g changelog.ChangelogEntries
 			g, err = changelog.Parse(strings.NewReader(text))
 			got = g
-		} else {
+		case "ParseOne":
 			got, err = parseOneLoop(text)
+		case "ParseOne-16-byte-reader":
+			got, err = parseOneLoopSized(text, 16)
+		case "ParseOne-200-byte-reader":
+			got, err = parseOneLoopSized(text, 200)
+		default:
+			got, err = parseOneLoopSized(text, 65536)
 		}
 		c.Cover("path:" + path)
 		if err != nil {
@@ -245,6 +275,9 @@ func (p c17) full(c *core.C, d clDoc) {
 		c.Cover("full:leading-blank-lines")
 	}
 	for _, e := range d.Entries {
+		if len(e.Opts) == 0 {
+			c.Cover("full:entry-without-options")
+		}
 		for _, l := range strings.Split(e.Body, "\n") {
 			if len(l) >= 4096 {
 				c.Cover("full:line>=4096-bytes")
